@@ -858,7 +858,7 @@ def run(ck):
                 ref.append(len(lines))
                 ask(mplib, m.f, None, "mpcall %d %s" % (len(a), " ".join(bits(x) for x in a)), None, "reference", rep)
             for p in m.pars:
-                ask(mplib, m.f, None, "mpsetdefault " + rng.choice([p.ext, p.name]), "ok", "setparameter", dict(rep, parameter=p.ext))
+                ask(mplib, m.f, None, "mpsetdefault %s %s" % (p.ext, rng.choice([p.ext, p.name])), "ok", "setparameter", dict(rep, parameter=p.ext))
                 for a, r in zip(probe, ref):
                     ask(mplib, m.f, None, "mpcall %d %s" % (len(a), " ".join(bits(x) for x in a)), ("same-as", r), "set-exported-default",
                         dict(rep, parameter=p.ext, declared_default=p.dflt[0], arguments=[repr(x) for x in a]), p)
